@@ -512,6 +512,75 @@ impl<'a> Rw<'a> {
     /// mentioned in between; the element type must be Copy, otherwise the result does not type-check -> undecided).
     /// `V.last_mut().unwrap().f = e;` becomes `{ let __v = e; let __k = V.len() - 1; let mut __t = V[__k]; __t.f = __v; V.set(__k, __t); }`.
     /// An empty V panics in the original (unwrap on None) and underflows `len() - 1` here: both are safety failures.
+    /// Statement-level rules on locals:
+    /// * R-DESTRUCT.assign: `(a, b) = e;` becomes `{ let __t = e; a = __t.0; b = __t.1; }` (a, b plain paths).
+    /// * R-OPAQUE.init (option `opaque_locals` = "name:Type;..."): the initialiser of the named local is dropped and the
+    ///   local starts with an arbitrary value of the stated type (`vx_arbitrary()`, no postcondition). Whatever is proved
+    ///   holds for every initial value, the real one included; side effects / panics of the dropped initialiser are NOT
+    ///   covered (the evidence lists the rule).
+    fn local_rules_pass(&mut self, stmts: Vec<Stmt>) -> Vec<Stmt> {
+        let opaque: Vec<(String, String)> = self
+            .opts
+            .extra
+            .get("opaque_locals")
+            .map(|l| {
+                l.split(';')
+                    .filter_map(|kv| kv.split_once(':').map(|(k, v)| (k.trim().to_string(), v.trim().to_string())))
+                    .collect()
+            })
+            .unwrap_or_default();
+        let n = stmts.len();
+        let mut out: Vec<Stmt> = Vec::with_capacity(n);
+        for i in 0..n {
+            let s = &stmts[i];
+            // destructuring assignment
+            if let Stmt::Expr(Expr::Assign(a), Some(_)) = s {
+                if let Expr::Tuple(t) = &*a.left {
+                    if !t.elems.is_empty() && t.elems.iter().all(|e| matches!(e, Expr::Path(_))) {
+                        let rhs = &a.right;
+                        let mut assigns: Vec<Stmt> = vec![];
+                        for (k, e) in t.elems.iter().enumerate() {
+                            let ix = syn::Index::from(k);
+                            assigns.push(parse_quote!(#e = __t.#ix;));
+                        }
+                        self.fire("R-DESTRUCT.assign");
+                        out.push(parse_quote!({ let __t = #rhs; #(#assigns)* }));
+                        continue;
+                    }
+                }
+            }
+            if let Stmt::Local(l) = s {
+                let name = match &l.pat {
+                    syn::Pat::Ident(pi) => Some((pi.ident.clone(), pi.mutability.is_some())),
+                    syn::Pat::Type(pt) => match &*pt.pat {
+                        syn::Pat::Ident(pi) => Some((pi.ident.clone(), pi.mutability.is_some())),
+                        _ => None,
+                    },
+                    _ => None,
+                };
+                if let Some((id, is_mut)) = name {
+                    let nm = id.to_string();
+                    if let Some((_, ty)) = opaque.iter().find(|(k, _)| *k == nm) {
+                        match syn::parse_str::<syn::Type>(ty) {
+                            Ok(t) => {
+                                self.fire("R-OPAQUE.init");
+                                if is_mut {
+                                    out.push(parse_quote!(let mut #id: #t = vx_arbitrary();));
+                                } else {
+                                    out.push(parse_quote!(let #id: #t = vx_arbitrary();));
+                                }
+                                continue;
+                            }
+                            Err(_) => self.err(format!("R-OPAQUE.init: cannot parse type `{}`", ty)),
+                        }
+                    }
+                }
+            }
+            out.push(s.clone());
+        }
+        out
+    }
+
     fn last_mut_pass(&mut self, stmts: Vec<Stmt>) -> Vec<Stmt> {
         let mut out: Vec<Stmt> = Vec::with_capacity(stmts.len());
         let mut i = 0;
@@ -665,6 +734,7 @@ impl<'a> VisitMut for Rw<'a> {
         // statement-level rewriting: drop logging stmts, expand statement macros
         let old = std::mem::take(&mut b.stmts);
         let old = self.last_mut_pass(old);
+        let old = self.local_rules_pass(old);
         let mut out: Vec<Stmt> = Vec::with_capacity(old.len());
         for mut s in old.into_iter() {
             if has_logging_cfg(&stmt_attrs(&s)) {
@@ -750,6 +820,22 @@ impl<'a> VisitMut for Rw<'a> {
     }
 
     fn visit_expr_mut(&mut self, e: &mut Expr) {
+        // R-ERR.try_from (option `try_converts` = "f,g"): `f(..)?` where f's error type is not the caller's (the real `?`
+        // goes through `From`, e.g. ComboErrors -> anyhow::Error): written out as
+        // `match f(..) { Ok(v) => v, Err(_) => return Err(VErr) }` (errors carry no payload in the verified text, R-ERR)
+        if let Expr::Try(t) = e {
+            if let Expr::Call(c) = &*t.expr {
+                if let Expr::Path(p) = &*c.func {
+                    let name = p.path.segments.last().map(|s| s.ident.to_string()).unwrap_or_default();
+                    let listed = self.opts.extra.get("try_converts").map(|l| l.split(',').any(|x| x.trim() == name)).unwrap_or(false);
+                    if listed {
+                        let inner = (*t.expr).clone();
+                        self.fire("R-ERR.try_from");
+                        *e = parse_quote!(match #inner { Ok(__ok) => __ok, Err(_) => return Err(VErr) });
+                    }
+                }
+            }
+        }
         // R-STD.usize_max: `<expr>.len().max(k)` is Ord::max on usize (Verus cannot specify provided trait methods):
         // replaced by the free function usize_max(a, b) whose (verified) body is `if a >= b { a } else { b }`
         if let Expr::MethodCall(mc) = e {
@@ -1710,6 +1796,33 @@ fn process_fn(req: &ItemReq, opts: &Opts, file: &syn::File, uc: &BTreeMap<String
             let pos = block.stmts.iter().position(|s| !is_marker_stmt(s)).unwrap_or(block.stmts.len());
             for (k, sh) in shadows.into_iter().enumerate() {
                 block.stmts.insert(pos + k, sh);
+            }
+        }
+    }
+    // R-FMT.dead_let.named (option `drop_dead_lets` = "a,b"): a top-level local that only fed removed message macros
+    // (println!, the message of assert!). Its `let` is dropped; it is an extraction error if, after all rewriting, the
+    // name is still mentioned anywhere else in the function. The dropped initialiser is not verified (listed in evidence).
+    if let Some(list) = rw.opts.extra.get("drop_dead_lets").cloned() {
+        for nm in list.split(',').map(|x| x.trim().to_string()).filter(|x| !x.is_empty()) {
+            let pos = block.stmts.iter().position(|s| match s {
+                Stmt::Local(l) => match &l.pat {
+                    syn::Pat::Ident(pi) => pi.ident == nm,
+                    syn::Pat::Type(pt) => matches!(&*pt.pat, syn::Pat::Ident(pi) if pi.ident == nm),
+                    _ => false,
+                },
+                _ => false,
+            });
+            match pos {
+                Some(k) => {
+                    let used = block.stmts.iter().enumerate().any(|(j, s2)| j != k && !is_marker_stmt(s2) && mentions_word(s2, &nm));
+                    if used {
+                        rw.err(format!("R-FMT.dead_let.named: `{}` is still used after message removal", nm));
+                    } else {
+                        block.stmts.remove(k);
+                        rw.fire("R-FMT.dead_let.named");
+                    }
+                }
+                None => rw.err(format!("R-FMT.dead_let.named: no top-level `let {}`", nm)),
             }
         }
     }
